@@ -65,8 +65,29 @@ def ownerGate (k : RegKind) (own : Option AddrTok) (recorder : Addr) : Bool :=
   | .ok _ => true
   | .error _ => false
 
+/-- the message server's record (`buy = false`) or storage purchase (`buy = true`) handler for a message naming `recorder` as
+owner, on a registry holding (at most) registration 1 (limit 3, default-like parameters) with the given stored owner:
+did the message take effect? -/
+def ownerMsg (k : RegKind) (buy : Bool) (own : Option AddrTok) (recorder : Addr) : Bool :=
+  let p : RegParams := { denom := "nund", feeReg := 1, feeRec := 1, feeBuy := 1, defLimit := 3, maxLimit := 600000 }
+  let s0 : RegState := { kind := k, params := p, nextId := 2 }
+  let s : RegState := match own with
+    | none => s0
+    | some o => { s0 with regs := [(1, RegMeta.mk 1 o "m" "n" "" "" 0 0 0 0)], limits := [(1, 3)] }
+  let who := AddrTok.canon recorder
+  if buy then
+    (match s.purchase 1 1 who with | .ok _ => true | .error _ => false)
+  else
+    (match s.record 1700000000 0 1 1 { key := 1, h0 := "a", subTime := 1700000000 } who with | .ok _ => true | .error _ => false)
+
 def eval (toks : List String) : String :=
   match toks with
+  | ["ownermsg", m, op, st, rc] =>
+    match (if m = "wrk" then some RegKind.wrk else if m = "bcn" then some RegKind.bcn else none),
+          (if op = "rec" then some false else if op = "buy" then some true else none), gateOwner? st,
+          (match rc.toList with | 'A' :: ds => (String.ofList ds).toNat? | _ => none) with
+    | some k, some b, some own, some j => if ownerMsg k b own j then "1" else "0"
+    | _, _, _, _ => "bad-request"
   | ["ownergate", m, st, rc] =>
     match (if m = "wrk" then some RegKind.wrk else if m = "bcn" then some RegKind.bcn else none), gateOwner? st,
           (match rc.toList with | 'A' :: ds => (String.ofList ds).toNat? | _ => none) with
